@@ -8,7 +8,7 @@ v0.5.5 for the SDK's testdata; v1.3.0 compiles that code unchanged and has T.Rep
 """
 import os, re, sys, shutil
 
-def generate(verif, repo):
+def generate(verif, repo, outdir=None):
     src = open(os.path.join(repo, "go.mod")).read()
     out = []
     for line in src.splitlines():
@@ -27,7 +27,8 @@ def generate(verif, repo):
     out.append("")
     hdir = os.path.join(verif, "harness")
     new = "\n".join(out)
-    p = os.path.join(hdir, "go.mod")
+    tdir = outdir or hdir
+    p = os.path.join(tdir, "go.mod")
     old = open(p).read() if os.path.exists(p) else None
     if old != new:
         open(p, "w").write(new)
@@ -36,7 +37,7 @@ def generate(verif, repo):
     extra = os.path.join(hdir, "go.sum.extra")
     if os.path.exists(extra):
         sums += open(extra).read()
-    ps = os.path.join(hdir, "go.sum")
+    ps = os.path.join(tdir, "go.sum")
     olds = open(ps).read() if os.path.exists(ps) else None
     if olds != sums:
         open(ps, "w").write(sums)
